@@ -166,8 +166,8 @@ fn run_history<T: MInstant>(
 impl Prop for C01 {
     fn cases(&self, tier: Tier) -> u64 {
         match tier {
-            Tier::Quick => 6_000,
-            Tier::Thorough => 600_000,
+            Tier::Quick => 200_000,
+            Tier::Thorough => 8_000_000,
         }
     }
 
